@@ -17,7 +17,10 @@ Local Open Scope N_scope.
 Lemma url_sanitizers_ok : c02_url_sanitizers = true. Proof. vm_compute. reflexivity. Qed.
 Lemma handlers_denied_ok : c02_handlers_denied = true. Proof. vm_compute. reflexivity. Qed.
 Lemma data_prefix_ok : c02_data_prefix = true. Proof. vm_compute. reflexivity. Qed.
-Lemma code_tables_ok : c02_code_tables = true. Proof. vm_compute. reflexivity. Qed.
+Lemma content_tables_ok : c02_content_tables = true. Proof. vm_compute. reflexivity. Qed.
+Lemma style_tables_ok : c02_style_tables = true. Proof. vm_compute. reflexivity. Qed.
+Lemma srcdoc_tables_ok : c02_srcdoc_tables = true. Proof. vm_compute. reflexivity. Qed.
+Lemma loading_tables_ok : c02_loading_tables = true. Proof. vm_compute. reflexivity. Qed.
 
 (* ================================================================== *)
 (* (a) typed-only sanitizers refuse every value that is not of their own safe type *)
@@ -330,7 +333,10 @@ Lemma url_sanitized_safe (s : bytes) : is_safe_url (url_sanitized s) = true.
 Proof. unfold url_sanitized. destruct (is_safe_url s) eqn:E; [exact E | exact innocuous_is_safe]. Qed.
 
 Lemma innocuous_wf : wf_bytes innocuous_url.
-Proof. unfold wf_bytes, innocuous_url. repeat (constructor; [unfold wf_byte; lia|]). constructor. Qed.
+Proof.
+  assert (H : forallb (fun c => c <? 256) innocuous_url = true) by (vm_compute; reflexivity).
+  rewrite forallb_forall in H. apply Forall_forall. intros c Hc. specialize (H c Hc). unfold wf_byte. lia.
+Qed.
 
 Lemma url_sanitized_wf (s : bytes) : wf_bytes s -> wf_bytes (url_sanitized s).
 Proof. intros H. unfold url_sanitized. destruct (is_safe_url s); [exact H | exact innocuous_wf]. Qed.
@@ -371,4 +377,432 @@ Example url_whole_value_js : apply_chain [B "_sanitizeURL"; N_normalizeURL; N_sa
 Proof. vm_compute. reflexivity. Qed.
 Example url_whole_value_kept : apply_chain [B "_sanitizeURL"; N_normalizeURL; N_sanitizeHTML] (VStr (B "https://a.b/c d?e=f&g"))
   = Some (B "https://a.b/c%20d?e=f&amp;g").
+Proof. vm_compute. reflexivity. Qed.
+
+(* ================================================================== *)
+(* policy plumbing: from a context NAME of the reviewed policy to the engine's sanitizer *)
+Lemma cc_mem_In x l : cc_mem x l = true <-> In x l.
+Proof.
+  unfold cc_mem. rewrite existsb_exists. split.
+  - intros [y [Hy E]]. apply bytes_eqb_eq in E. subst. exact Hy.
+  - intros H. exists x. split; [exact H | apply bytes_eqb_refl].
+Qed.
+
+Lemma sc_info_in sc i : sc_info sc = Some i -> In (sc, i) P_contexts.
+Proof.
+  unfold sc_info. destruct (find (fun e => fst e =? sc) P_contexts) as [[k j]|] eqn:Ef; [|discriminate].
+  intros H. inversion H; subst. apply find_some in Ef as [Hin Hk]. cbn [fst] in Hk.
+  apply N.eqb_eq in Hk. subst. exact Hin.
+Qed.
+
+Lemma contexts_ok_first :
+  forallb (fun x => let '(_, (n, san, en, url)) := x in
+                    match lookup_bytes n R_contexts with
+                    | Some (san', en', url', _) => bytes_eqb san san' && Bool.eqb en en' && Bool.eqb url url'
+                    | None => false
+                    end) P_contexts = true.
+Proof.
+  pose proof contexts_ok_ok as H. unfold contexts_ok in H.
+  repeat (apply andb_true_iff in H as [H _]). exact H.
+Qed.
+
+(* the reviewed entry of the context an engine number denotes *)
+Lemma sc_reviewed sc n : sc_name sc = n -> n <> [] ->
+  sc_sanitizer_name sc = r_sanitizer n /\ sc_is_url sc = r_is_url n.
+Proof.
+  unfold sc_name, sc_sanitizer_name, sc_is_url, r_sanitizer, r_is_url.
+  destruct (sc_info sc) as [[[[n0 san0] en0] url0]|] eqn:Ei.
+  - intros <- _. apply sc_info_in in Ei. pose proof contexts_ok_first as H. rewrite forallb_forall in H.
+    specialize (H _ Ei). cbn beta iota in H.
+    destruct (lookup_bytes n0 R_contexts) as [[[[san' en'] url'] t']|]; [|discriminate H].
+    apply andb_true_iff in H as [H H3]. apply andb_true_iff in H as [H1 H2].
+    apply bytes_eqb_eq in H1. apply Bool.eqb_prop in H3. subst. auto.
+  - intros <- Hn. contradiction Hn. reflexivity.
+Qed.
+
+Lemma trust_le_exact a b : trust_le a b = true ->
+  bytes_eqb a N_None = false -> bytes_eqb a N_URL = false -> bytes_eqb a N_TRUOrURL = false -> b = a.
+Proof.
+  unfold trust_le. intros H H1 H2 H3. rewrite H1, H2, H3 in H. cbn [andb orb] in H.
+  rewrite !orb_false_r in H. apply bytes_eqb_eq in H. auto.
+Qed.
+
+(* the reviewed decision does not look at rel unless the pair is link / href *)
+Lemma reviewed_attr_no_rel e a rel :
+  bytes_eqb e (B "link") && bytes_eqb a (B "href") = false -> reviewed_attr e a rel = reviewed_attr e a [].
+Proof. intros H. unfold reviewed_attr. rewrite H. reflexivity. Qed.
+
+Lemma reviewed_attr_link_rel rel : rel_has_url_token rel = false ->
+  reviewed_attr (B "link") (B "href") rel = reviewed_attr (B "link") (B "href") [].
+Proof.
+  unfold rel_has_url_token. intros H. unfold reviewed_attr. rewrite H.
+  change (bytes_eqb (B "link") (B "link") && bytes_eqb (B "href") (B "href") && false) with false.
+  change (bytes_eqb (B "link") (B "link") && bytes_eqb (B "href") (B "href") &&
+          existsb (fun v => mem_bytes v R_urlLinkRelVals) (fields [])) with false.
+  reflexivity.
+Qed.
+
+Lemma lookup3_classes a e : forall t n, lookup3 a e t = Some n ->
+  In n (map snd (filter (fun x => bytes_eqb a (fst (fst x))) t)).
+Proof.
+  induction t as [|[[a' e'] n'] t IH]; cbn [lookup3 filter fst snd]; intros n H; [discriminate|].
+  destruct (bytes_eqb a a') eqn:Ea; cbn [andb] in H.
+  - destruct (bytes_eqb e e'); [inversion H; subst; left; reflexivity | right; apply IH; exact H].
+  - apply IH. exact H.
+Qed.
+
+Lemma r_tables_classes a e n : r_tables a e = Some n -> In n (r_attr_classes a).
+Proof.
+  unfold r_tables, r_attr_classes. intros H. apply in_or_app.
+  destruct (lookup3 a e R_elementSpecific) as [n1|] eqn:E3.
+  - inversion H; subst. left. eapply lookup3_classes; exact E3.
+  - right. destruct (lookup_bytes a R_globalAttr) as [n1|]; [|discriminate].
+    destruct (is_some (lookup_bytes e R_elementContent) || mem_bytes e R_allowedVoid); [|discriminate].
+    inversion H; subst. left. reflexivity.
+Qed.
+
+Lemma reviewed_attr_classes e a rel n :
+  bytes_eqb a (B "href") = false -> go_match_bytes R_dataAttributeName a = false ->
+  reviewed_attr e a rel = Some n -> In n (r_attr_classes a).
+Proof.
+  intros Ha Hd. unfold reviewed_attr. rewrite Ha, Hd, andb_false_r. cbn [andb]. apply r_tables_classes.
+Qed.
+
+(* ================================================================== *)
+(* (a) instances named by the property, from the reviewed policy *)
+
+(* ---- script and style element bodies ---- *)
+Theorem code_content_sanitizer e sc :
+  sc_for_element_content e = Some sc ->
+  (e = B "script" -> sc_sanitizer_name sc = B "_sanitizeScript") /\
+  (e = B "style" -> sc_sanitizer_name sc = B "_sanitizeStyleSheet").
+Proof.
+  intros H. apply policy_not_weaker_content in H as (n' & Er & Hle).
+  pose proof content_tables_ok as T. unfold c02_content_tables in T.
+  apply andb_true_iff in T as [T T4]. apply andb_true_iff in T as [T T3]. apply andb_true_iff in T as [T1 T2].
+  split; intros ->.
+  - unfold opt_is in T1. rewrite Er in T1. apply bytes_eqb_eq in T1. subst n'.
+    apply trust_le_exact in Hle; [|reflexivity|reflexivity|reflexivity].
+    destruct (sc_reviewed sc _ Hle) as [E _]; [discriminate|]. rewrite E.
+    apply bytes_eqb_eq. exact T3.
+  - unfold opt_is in T2. rewrite Er in T2. apply bytes_eqb_eq in T2. subst n'.
+    apply trust_le_exact in Hle; [|reflexivity|reflexivity|reflexivity].
+    destruct (sc_reviewed sc _ Hle) as [E _]; [discriminate|]. rewrite E.
+    apply bytes_eqb_eq. exact T4.
+Qed.
+
+(* an action directly inside a script or style element: the chain is the single typed-only sanitizer *)
+Theorem code_body_chain c chain :
+  c_elem c = B "script" \/ c_elem c = B "style" ->
+  c_elem_names c = [] -> c_attr c = [] -> c_attr_names c = [] ->
+  c_state c <> StHTMLCmt ->
+  sanitizer_for_context c = Some chain ->
+  (c_elem c = B "script" -> chain = [B "_sanitizeScript"]) /\
+  (c_elem c = B "style" -> chain = [B "_sanitizeStyleSheet"]).
+Proof.
+  intros He Hen Ha Han Hst. unfold sanitizer_for_context, sanitizer_for_element_content.
+  rewrite Hen, Ha, Han.
+  assert (Ee : bytes_eqb (c_elem c) [] = false) by (destruct He as [-> | ->]; reflexivity).
+  rewrite Ee. cbn [andb negb orb bytes_eqb list_eqb all_same_content_sc].
+  destruct (sc_for_element_content (c_elem c)) as [sc|] eqn:Esc.
+  - destruct (code_content_sanitizer _ _ Esc) as [H1 H2]. rewrite Ee.
+    destruct (c_state c); try discriminate; try contradiction; intros H; inversion H; subst; clear H;
+      (split; intros E; [rewrite (H1 E) | rewrite (H2 E)]; reflexivity).
+  - rewrite Ee. destruct (c_state c); try discriminate; contradiction.
+Qed.
+
+Theorem code_body_rejects c chain v :
+  c_elem c = B "script" \/ c_elem c = B "style" ->
+  c_elem_names c = [] -> c_attr c = [] -> c_attr_names c = [] ->
+  c_state c <> StHTMLCmt ->
+  sanitizer_for_context c = Some chain ->
+  untrusted v -> apply_chain chain v = None.
+Proof.
+  intros He Hen Ha Han Hst Hc Hu.
+  destruct (code_body_chain c chain He Hen Ha Han Hst Hc) as [H1 H2].
+  destruct He as [E|E]; [rewrite (H1 E) | rewrite (H2 E)];
+    apply typed_only_reject_untrusted; try exact Hu; unfold typed_only_sanitizers; simpl; auto 10.
+Qed.
+
+(* ---- attribute values: the context number comes from the first (element, attribute) pair ---- *)
+Lemma all_same_sc_fixed t rel : forall s sc0, all_same_sc t rel (Some s) = Some sc0 -> sc0 = s.
+Proof.
+  induction t as [|[e a] t IH]; cbn [all_same_sc]; intros s sc0 H; [inversion H; reflexivity|].
+  destruct (sc_for_attr_val e a rel) as [sc|]; [|discriminate].
+  destruct (sc =? s); [apply IH; exact H | discriminate].
+Qed.
+
+Lemma all_same_sc_first e a t rel sc0 :
+  all_same_sc ((e, a) :: t) rel None = Some sc0 -> sc_for_attr_val e a rel = Some sc0.
+Proof.
+  cbn [all_same_sc]. destruct (sc_for_attr_val e a rel) as [sc|]; [|discriminate].
+  intros H. apply all_same_sc_fixed in H. subst. reflexivity.
+Qed.
+
+Lemma all_same_sc_first_none e a t rel :
+  sc_for_attr_val e a rel = None -> all_same_sc ((e, a) :: t) rel None = None.
+Proof. intros H. cbn [all_same_sc]. rewrite H. reflexivity. Qed.
+
+(* with a single attribute name, the first pair carries that name *)
+Lemma attr_pairs_first c : c_attr_names c = [] ->
+  exists e t, attr_pairs c = (e, c_attr c) :: t.
+Proof.
+  intros Han. unfold attr_pairs. rewrite Han.
+  destruct (c_elem_names c) as [|e1 l]; cbn [flat_map map app]; eauto.
+Qed.
+
+(* ---- event handlers: refused by default deny ---- *)
+Lemma data_name_starts_d a : go_match_bytes R_dataAttributeName a = true -> exists t, a = 100 :: t.
+Proof.
+  unfold go_match_bytes, go_match. intros H.
+  apply (incl_ok_sound _ _ data_prefix_ok) in H. unfold starts_with_d in H.
+  apply accepts_begin_cls in H as (c & t & E & Hc).
+  assert (c = 100) by (unfold in_ranges, in_range in Hc; simpl in Hc; lia). subst c.
+  destruct (decode_cons_ascii a 100 t E eq_refl) as (s' & -> & _). eauto.
+Qed.
+
+Lemma handler_not_key a : handler_name a = true -> ~ In a r_attr_keys.
+Proof.
+  intros H Hin. pose proof handlers_denied_ok as K. unfold c02_handlers_denied in K.
+  rewrite forallb_forall in K. specialize (K a Hin). rewrite H in K. discriminate.
+Qed.
+
+Lemma lookup3_key a e : forall t n, lookup3 a e t = Some n -> In a (map (fun x => fst (fst x)) t).
+Proof.
+  induction t as [|[[a' e'] n'] t IH]; cbn [lookup3 map fst]; intros n H; [discriminate|].
+  destruct (bytes_eqb a a' && bytes_eqb e e') eqn:E.
+  - apply andb_true_iff in E as [E _]. apply bytes_eqb_eq in E. subst. left. reflexivity.
+  - right. eapply IH. exact H.
+Qed.
+
+Theorem handler_reviewed_deny e a rel : handler_name a = true -> reviewed_attr e a rel = None.
+Proof.
+  intros H. unfold reviewed_attr.
+  assert (Eh : bytes_eqb a (B "href") = false).
+  { destruct (bytes_eqb a (B "href")) eqn:E; [|reflexivity]. apply bytes_eqb_eq in E. subst. discriminate H. }
+  rewrite Eh, andb_false_r. cbn [andb].
+  destruct (go_match_bytes R_dataAttributeName a) eqn:Ed.
+  { apply data_name_starts_d in Ed as (t & ->). discriminate H. }
+  unfold r_tables.
+  destruct (lookup3 a e R_elementSpecific) as [n|] eqn:E3.
+  { exfalso. apply (handler_not_key a H). unfold r_attr_keys. apply in_or_app. left. eapply lookup3_key. exact E3. }
+  destruct (lookup_bytes a R_globalAttr) as [n|] eqn:Eg; [|reflexivity].
+  exfalso. apply (handler_not_key a H). unfold r_attr_keys. apply in_or_app. right. eapply lookup_bytes_key. exact Eg.
+Qed.
+
+Theorem handler_denied e a rel : handler_name a = true -> sc_for_attr_val e a rel = None.
+Proof. intros H. apply policy_default_deny_attr, handler_reviewed_deny, H. Qed.
+
+Theorem handler_context_refused c :
+  handler_name (c_attr c) = true -> c_attr_names c = [] -> sanitizers_for_attr_value c = None.
+Proof.
+  intros H Han. unfold sanitizers_for_attr_value.
+  destruct (attr_pairs_first c Han) as (e & t & ->).
+  rewrite (all_same_sc_first_none e (c_attr c) t (c_link_rel c) (handler_denied e _ _ H)). reflexivity.
+Qed.
+
+(* ---- style and srcdoc attributes ---- *)
+Lemma classes_all n0 a n : forallb (fun n => bytes_eqb n n0) (r_attr_classes a) = true ->
+  In n (r_attr_classes a) -> n = n0.
+Proof. intros H Hin. rewrite forallb_forall in H. apply bytes_eqb_eq. apply H. exact Hin. Qed.
+
+Theorem code_attr_sanitizer e a rel sc :
+  sc_for_attr_val e a rel = Some sc ->
+  (a = B "style" -> sc_sanitizer_name sc = B "_sanitizeStyle" /\ sc_is_url sc = false) /\
+  (a = B "srcdoc" -> sc_sanitizer_name sc = B "_sanitizeHTMLValOnly" /\ sc_is_url sc = false).
+Proof.
+  intros H. apply policy_not_weaker_attr in H as (n' & Er & Hle). split; intros ->.
+  - pose proof style_tables_ok as T. unfold c02_style_tables in T.
+    apply andb_true_iff in T as [T T4]. apply andb_true_iff in T as [T T3]. apply andb_true_iff in T as [T1 T2].
+    apply negb_true_iff in T2, T4.
+    apply reviewed_attr_classes in Er; [|reflexivity|exact T2].
+    apply (classes_all _ _ _ T1) in Er. subst n'.
+    apply trust_le_exact in Hle; [|reflexivity|reflexivity|reflexivity].
+    destruct (sc_reviewed sc _ Hle) as [E1 E2]; [discriminate|]. rewrite E1, E2.
+    split; [apply bytes_eqb_eq; exact T3 | exact T4].
+  - pose proof srcdoc_tables_ok as T. unfold c02_srcdoc_tables in T.
+    apply andb_true_iff in T as [T T4]. apply andb_true_iff in T as [T T3]. apply andb_true_iff in T as [T1 T2].
+    apply negb_true_iff in T2, T4.
+    apply reviewed_attr_classes in Er; [|reflexivity|exact T2].
+    apply (classes_all _ _ _ T1) in Er. subst n'.
+    apply trust_le_exact in Hle; [|reflexivity|reflexivity|reflexivity].
+    destruct (sc_reviewed sc _ Hle) as [E1 E2]; [discriminate|]. rewrite E1, E2.
+    split; [apply bytes_eqb_eq; exact T3 | exact T4].
+Qed.
+
+Theorem code_attr_rejects c chain v :
+  c_attr c = B "style" \/ c_attr c = B "srcdoc" -> c_attr_names c = [] ->
+  sanitizers_for_attr_value c = Some chain ->
+  untrusted v -> apply_chain chain v = None.
+Proof.
+  intros Ha Han Hc Hu.
+  apply attr_chain_shape in Hc as (sc0 & Hsc & _ & Hnu & _ & _ & _).
+  destruct (attr_pairs_first c Han) as (e & t & Ep). rewrite Ep in Hsc.
+  apply all_same_sc_first in Hsc. destruct (code_attr_sanitizer _ _ _ _ Hsc) as [H1 H2].
+  destruct Ha as [E|E].
+  - destruct (H1 E) as [Es Eu]. rewrite (Hnu Eu), Es.
+    apply typed_only_reject_untrusted; [unfold typed_only_sanitizers; simpl; auto 10 | exact Hu].
+  - destruct (H2 E) as [Es Eu]. rewrite (Hnu Eu), Es.
+    apply typed_only_reject_untrusted; [unfold typed_only_sanitizers; simpl; auto 10 | exact Hu].
+Qed.
+
+(* ---- URLs that load code or styles ---- *)
+Lemma tru_context_unique sc : sc_sanitizer_name sc = B "_sanitizeTrustedResourceURL" -> sc = SC_TRU.
+Proof.
+  unfold sc_sanitizer_name. destruct (sc_info sc) as [[[[n0 san0] en0] url0]|] eqn:Ei; [|discriminate].
+  intros ->. apply sc_info_in in Ei. pose proof url_sanitizers_ok as K. unfold c02_url_sanitizers in K.
+  rewrite forallb_forall in K. specialize (K _ Ei). cbn beta iota in K.
+  apply andb_true_iff in K as [_ K]. rewrite bytes_eqb_refl in K. cbn [implb] in K. apply N.eqb_eq. exact K.
+Qed.
+
+Theorem code_loading_sanitizer e a rel sc :
+  In (e, a) code_loading_pairs ->
+  (e = B "link" -> rel_has_url_token rel = false) ->
+  sc_for_attr_val e a rel = Some sc ->
+  sc_sanitizer_name sc = B "_sanitizeTrustedResourceURL" /\ sc_is_url sc = true.
+Proof.
+  intros Hin Hrel H. apply policy_not_weaker_attr in H as (n' & Er & Hle).
+  pose proof loading_tables_ok as T. unfold c02_loading_tables in T.
+  apply andb_true_iff in T as [T T3]. apply andb_true_iff in T as [T1 T2].
+  rewrite forallb_forall in T1. specialize (T1 _ Hin). cbn [fst snd] in T1.
+  assert (Er0 : reviewed_attr e a [] = Some n').
+  { rewrite <- Er. symmetry. unfold code_loading_pairs in Hin.
+    repeat (destruct Hin as [Hin|Hin]; [inversion Hin; subst e a;
+      first [apply reviewed_attr_no_rel; reflexivity | apply reviewed_attr_link_rel; apply Hrel; reflexivity] |]).
+    destruct Hin. }
+  rewrite Er0 in T1. unfold opt_is in T1. apply bytes_eqb_eq in T1. subst n'.
+  apply trust_le_exact in Hle; [|reflexivity|reflexivity|reflexivity].
+  destruct (sc_reviewed sc _ Hle) as [E1 E2]; [discriminate|]. rewrite E1, E2.
+  split; [apply bytes_eqb_eq; exact T2 | exact T3].
+Qed.
+
+(* at the start of such an attribute value (empty static prefix) an untrusted value is refused *)
+Theorem code_loading_rejects c chain v :
+  In (c_elem c, c_attr c) code_loading_pairs ->
+  (c_elem c = B "link" -> rel_has_url_token (c_link_rel c) = false) ->
+  c_elem_names c = [] -> c_attr_names c = [] -> c_attr_value c = [] ->
+  sanitizers_for_attr_value c = Some chain ->
+  untrusted v -> apply_chain chain v = None.
+Proof.
+  intros Hin Hrel Hen Han Hv Hc Hu.
+  apply attr_chain_shape in Hc as (sc0 & Hsc & _ & _ & Hurl & _ & _).
+  unfold attr_pairs in Hsc. rewrite Hen, Han in Hsc. cbn [flat_map map app] in Hsc.
+  apply all_same_sc_first in Hsc.
+  destruct (code_loading_sanitizer _ _ _ _ Hin Hrel Hsc) as [Es Eu].
+  rewrite (Hurl Eu Hv), Es.
+  apply typed_only_reject_untrusted; [unfold typed_only_sanitizers; simpl; auto 10 | exact Hu].
+Qed.
+
+(* after a static prefix the chain is the percent-escaping one and the prefix was validated as a
+   TrustedResourceURL prefix (what that prefix fixes is C13 / C14) *)
+Theorem code_loading_after_prefix c chain :
+  In (c_elem c, c_attr c) code_loading_pairs ->
+  (c_elem c = B "link" -> rel_has_url_token (c_link_rel c) = false) ->
+  c_elem_names c = [] -> c_attr_names c = [] -> c_attr_value c <> [] ->
+  sanitizers_for_attr_value c = Some chain ->
+  chain = [N_validateTRUSubst; N_queryEscapeURL; N_sanitizeHTML] /\ validate_tru_prefix (c_attr_value c) = true.
+Proof.
+  intros Hin Hrel Hen Han Hv Hc. unfold sanitizers_for_attr_value in Hc.
+  unfold attr_pairs in Hc. rewrite Hen, Han in Hc. cbn [flat_map map app] in Hc.
+  destruct (all_same_sc [(c_elem c, c_attr c)] (c_link_rel c) None) as [sc0|] eqn:Hsc; [|discriminate].
+  apply all_same_sc_first in Hsc.
+  destruct (code_loading_sanitizer _ _ _ _ Hin Hrel Hsc) as [Es Eu].
+  assert (Etru : sc0 =? SC_TRU = true).
+  { apply N.eqb_eq. apply tru_context_unique. exact Es. }
+  destruct (sc_is_enum sc0 && negb (bytes_eqb (c_attr_value c) [])); [discriminate|].
+  destruct ((sc0 =? SC_Style) && negb (bytes_eqb (c_attr_value c) []) && negb (validate_no_charref_prefix (c_attr_value c)));
+    [discriminate|].
+  rewrite Eu in Hc. cbn [negb] in Hc.
+  destruct (c_attr_value c) as [|b0 p] eqn:Ev; [contradiction Hv; reflexivity|].
+  destruct (c_attr_amb c); [discriminate|].
+  unfold url_prefix_validator in Hc. rewrite Etru in Hc.
+  destruct ((sc0 =? SC_URL) || (sc0 =? SC_TRUOrURL)) eqn:Eo.
+  { apply N.eqb_eq in Etru. subst sc0. vm_compute in Eo. discriminate Eo. }
+  destruct (validate_tru_prefix (b0 :: p)) eqn:Evp; cbn [negb] in Hc; [|discriminate].
+  inversion Hc. auto.
+Qed.
+
+(* ================================================================== *)
+(* (c) at the level of contexts: a URL attribute value that starts with the action *)
+Lemma url_sanitizer_is_url sc :
+  sc_is_url sc = cc_mem (sc_sanitizer_name sc) url_class_sanitizers.
+Proof.
+  unfold sc_is_url, sc_sanitizer_name. destruct (sc_info sc) as [[[[n0 san0] en0] url0]|] eqn:Ei; [|reflexivity].
+  apply sc_info_in in Ei. pose proof url_sanitizers_ok as K. unfold c02_url_sanitizers in K.
+  rewrite forallb_forall in K. specialize (K _ Ei). cbn beta iota in K.
+  apply andb_true_iff in K as [K _]. apply Bool.eqb_prop in K. exact K.
+Qed.
+
+Theorem url_attr_whole_value c chain f rest v o :
+  sanitizers_for_attr_value c = Some chain -> c_attr_value c = [] ->
+  chain = f :: rest ->
+  f = B "_sanitizeURL" \/ f = B "_sanitizeTrustedResourceURLOrURL" ->
+  untrusted v -> wf_bytes (stringify v) ->
+  apply_chain chain v = Some o ->
+  chain = [f; N_normalizeURL; N_sanitizeHTML] /\
+  whatwg_scheme (decode_runes (html_unescape o)) <> Some javascript_scheme.
+Proof.
+  intros Hc Hv Ech Hf Hu Hwf Ha.
+  apply attr_chain_shape in Hc as (sc0 & _ & _ & Hnu & Hurl & _ & _).
+  assert (Eshape : chain = [f; N_normalizeURL; N_sanitizeHTML]).
+  { destruct (sc_is_url sc0) eqn:Eu.
+    - specialize (Hurl eq_refl Hv). rewrite Hurl in Ech. unfold nonempty_names in Ech. cbn [filter] in Ech.
+      change (negb (bytes_eqb N_normalizeURL [])) with true in Ech. cbn iota in Ech.
+      destruct (negb (bytes_eqb (sc_sanitizer_name sc0) [])); cbn [app] in Ech.
+      + inversion Ech; subst. exact Hurl.
+      + inversion Ech as [[E1 E2]]. exfalso. destruct Hf as [-> | ->]; discriminate E1.
+    - specialize (Hnu eq_refl). rewrite url_sanitizer_is_url in Eu.
+      rewrite Hnu in Ech. unfold nonempty_names in Ech. cbn [filter] in Ech.
+      destruct (negb (bytes_eqb (sc_sanitizer_name sc0) [])); cbn [app] in Ech.
+      + inversion Ech as [[E1 E2]]. rewrite E1 in Eu. exfalso.
+        destruct Hf as [-> | ->]; vm_compute in Eu; discriminate Eu.
+      + inversion Ech as [[E1 E2]]. exfalso. destruct Hf as [-> | ->]; discriminate E1. }
+  split; [exact Eshape|]. rewrite Eshape in Ha. eapply url_whole_value; eauto.
+Qed.
+
+(* ================================================================== *)
+(* (d) srcset: every image candidate the browser sees in the sanitized set is a safe URL *)
+Lemma safe_url_no_js (u : bytes) : is_safe_url u = true ->
+  whatwg_scheme (decode_runes u) <> Some javascript_scheme.
+Proof. intros H. apply safe_shape_no_js, is_safe_url_shape, H. Qed.
+
+Theorem urlset_chain v o :
+  apply_chain [B "_sanitizeURLSet"; N_sanitizeHTML] v = Some o ->
+  let u := urlset_sanitized (stringify v) in
+  o = html_escaped u /\ html_unescape o = coerce_spec u /\
+  exists cs, cs <> [] /\
+    candidates u = map (fun c => (fst c, descr_tokens (snd c))) cs /\
+    Forall (fun c => is_safe_url (fst c) = true /\
+                     whatwg_scheme (decode_runes (fst c)) <> Some javascript_scheme) cs.
+Proof.
+  cbn [apply_chain].
+  assert (E1 : apply_sanitizer (B "_sanitizeURLSet") v = Some (urlset_sanitized (stringify v))).
+  { unfold apply_sanitizer. eval_closed. reflexivity. }
+  rewrite E1.
+  assert (E3 : forall x : bytes, apply_sanitizer N_sanitizeHTML (VStr x) = Some (html_escaped x)).
+  { intros x. unfold apply_sanitizer, N_sanitizeHTML. eval_closed. reflexivity. }
+  rewrite E3. intros H. inversion H; subst o. cbv zeta.
+  split; [reflexivity|]. split; [apply html_unescape_escaped|].
+  destruct (c12_whatwg (stringify v)) as (cs & Hne & Hc & Hall & _).
+  exists cs. split; [exact Hne|]. split; [exact Hc|].
+  eapply Forall_impl; [|exact Hall]. intros c (Hs & _ & _). split; [exact Hs | apply safe_url_no_js; exact Hs].
+Qed.
+
+(* when the sanitized set contains no code point that HTMLEscaped replaces, the decoded attribute
+   value IS the sanitized set, so the statement is about what the browser parses *)
+Corollary urlset_chain_clean v o :
+  apply_chain [B "_sanitizeURLSet"; N_sanitizeHTML] v = Some o ->
+  coerce_spec (urlset_sanitized (stringify v)) = urlset_sanitized (stringify v) ->
+  Forall (fun c => whatwg_scheme (decode_runes (fst c)) <> Some javascript_scheme)
+         (candidates (html_unescape o)).
+Proof.
+  intros H Hclean. destruct (urlset_chain v o H) as (_ & Eu & cs & _ & Hc & Hall).
+  rewrite Eu, Hclean, Hc. apply Forall_forall. intros x Hx.
+  apply in_map_iff in Hx as (c & <- & Hin). cbn [fst].
+  rewrite Forall_forall in Hall. apply (Hall c Hin).
+Qed.
+
+Example urlset_example :
+  apply_chain [B "_sanitizeURLSet"; N_sanitizeHTML] (VStr (B "a.png 1x, javascript:alert(1) 2x, b.png 3x"))
+  = Some (B "a.png 1x , b.png 3x").
 Proof. vm_compute. reflexivity. Qed.
